@@ -15,6 +15,7 @@ func init() {
 			ruleKeyToLabel(r)
 			ruleIdentPredicates(r)
 			ruleSanitiserSites(r)
+			ruleTokenTable(r) // names that spell a function (duration_seconds, rate, ...) stay usable as label names: IsFunction is the set the lexer turns back into identifiers
 		},
 	})
 }
